@@ -289,6 +289,10 @@ func c12Run(t *testing.T, r *vk.Reporter, id string, sc *c12Scn) (steps int, kin
 			a, b := pp.ClosedBy()
 			if !a && !b {
 				setV("conn-left-open", fmt.Sprintf("connection %d of the torn-down session was closed by neither end", pp.Idx))
+			} else if !a || !b {
+				// each session owns its end of every connection: "all of the session's connections end up
+				// closed" holds per side (an end that is never closed is a leaked socket)
+				setV("conn-end-left-open", fmt.Sprintf("connection %d: both sessions are closed and quiescent, but the %s session never closed its end of the connection (client end closed=%v, server end closed=%v)", pp.Idx, map[bool]string{true: "server", false: "client"}[a], a, b))
 			}
 		}
 		r.Distinct("arrival_orders", vk.Hash64(g.arrivals, sc.Fault))
@@ -617,6 +621,8 @@ func c12AddVsClose(t *testing.T, r *vk.Reporter, id string, cfg rigCfg) (kind, d
 			a, b := pp.ClosedBy()
 			if !a && !b {
 				kind, detail = "conn-left-open", fmt.Sprintf("connection %d (added while the session was closing) was closed by neither end", pp.Idx)
+			} else if !a || !b {
+				kind, detail = "conn-end-left-open", fmt.Sprintf("connection %d (added while the session was closing): one session never closed its end (client end closed=%v, server end closed=%v)", pp.Idx, a, b)
 			}
 		}
 		if !g.srv.IsClosed() {
@@ -658,10 +664,13 @@ func TestVerif_C12(t *testing.T) {
 				}
 			}
 		}
-		for step := 0; step < steps; step++ {
+		for step := 0; step <= steps; step++ { // step == steps: the write of the final Close's own notice fails
 			for ci, class := range classes {
 				for ki, kind := range kinds {
 					if len(kind) > 5 && (kind[:5] == "close" || kind[:5] == "send-") && ci > 0 {
+						continue
+					}
+					if step == steps && !(len(kind) > 5 && kind[:5] == "send-") {
 						continue
 					}
 					if !r.Thorough() {
@@ -690,6 +699,24 @@ func TestVerif_C12(t *testing.T) {
 					}
 				}
 			}
+		}
+	}
+	// Close while the path to the peer is stalled and the send window is full: the closing notice
+	// cannot leave, yet everything blocked on the closing side must return at once
+	for i := 0; i < r.Pick(8, 120); i++ {
+		id := fmt.Sprintf("close-under-backpressure-%d", i)
+		if !r.Mine(id) {
+			continue
+		}
+		cfg := rigCfg{Method: methods[i%4], NumConn: 1 + i%3, Seg: "all", Window: []int{4096, 16384}[i%2]}
+		r.Case(id, cfg)
+		k, d := c12CloseBackpressure(t, r, id, cfg, i%2 == 0)
+		r.Distinct("cases", vk.Hash64("cbp", cfg, i))
+		r.Count("close_under_backpressure_cases", 1)
+		if k != "" {
+			r.Violation(id, "C12:"+k, fmt.Sprintf("%s; cfg %+v", d, cfg), cfg)
+		} else {
+			r.Pass(id)
 		}
 	}
 	// stream-count invariant
@@ -755,4 +782,88 @@ func TestVerif_C12(t *testing.T) {
 			}
 		}
 	}
+}
+
+// c12CloseBackpressure: one side calls Session.Close while its connections are back-pressured (the
+// network delivers nothing and the send windows are full). Blocked Read and Accept on that side
+// must return and OpenStream must be refused as soon as Close has been called - not only once the
+// closing notice could finally be sent. Afterwards the path recovers and both sessions must end up
+// closed with every connection end closed.
+func c12CloseBackpressure(t *testing.T, r *vk.Reporter, id string, cfg rigCfg, byClient bool) (kind, detail string) {
+	rng := r.Rand("c12b", id)
+	p, leftover := vk.InBubble(t, func() {
+		cfg.Inactivity = 100 * time.Hour
+		g := newRigA(cfg, rng)
+		for i := 0; i < g.nconn(); i++ {
+			g.addConn()
+		}
+		st, err := g.cli.OpenStream()
+		if err != nil {
+			kind, detail = "harness", err.Error()
+			return
+		}
+		st.Write([]byte("hello"))
+		acc, err := g.srv.Accept()
+		if err != nil {
+			kind, detail = "harness", err.Error()
+			return
+		}
+		io.ReadFull(acc, make([]byte, 5))
+		me, mine, dir, name := g.cli, st, 0, "client"
+		if !byClient {
+			me, mine, dir, name = g.srv, acc.(*Stream), 1, "server"
+		}
+		var readRet, accRet, closeRet, writeRet bool
+		go func() { mine.Read(make([]byte, 10)); readRet = true }()
+		go func() { me.Accept(); accRet = true }()
+		vk.Wait()
+		for _, pp := range g.pipes {
+			pp.Stall(dir, true)
+		}
+		go func() { mine.Write(make([]byte, 200000)); writeRet = true }() // fills every send window, then blocks
+		vk.Wait()
+		if writeRet {
+			kind, detail = "harness", "the large write was not blocked by the stalled path"
+			return
+		}
+		go func() { me.Close(); closeRet = true }()
+		vk.Wait()
+		switch {
+		case !me.IsClosed():
+			kind, detail = "close-has-no-effect-yet", fmt.Sprintf("%s.Close() was called while its connections are back-pressured: the session does not even report closed until the notice can be sent", name)
+		case !readRet:
+			kind, detail = "op-blocked", fmt.Sprintf("%s.Close() was called while its connections are back-pressured: a Read that was blocked on one of its streams has not returned", name)
+		case !accRet:
+			kind, detail = "op-blocked", fmt.Sprintf("%s.Close() was called while its connections are back-pressured: a blocked Accept has not returned", name)
+		}
+		// (the Write that is stuck inside the stalled connection returns when the connection is closed,
+		// which the closing side does after its notice: judged after the path has recovered)
+		if kind == "" {
+			if s2, err := me.OpenStream(); err == nil {
+				kind, detail = "open-after-close", fmt.Sprintf("OpenStream succeeded on the %s session after Close had been called (stream %v)", name, s2 != nil)
+			}
+		}
+		for _, pp := range g.pipes {
+			pp.Stall(dir, false)
+		}
+		vk.Wait()
+		time.Sleep(10 * time.Minute)
+		vk.Wait()
+		if kind == "" {
+			switch {
+			case !closeRet:
+				kind, detail = "op-blocked", "Close never returned although the path recovered"
+			case !writeRet:
+				kind, detail = "op-blocked", "the Write that was blocked when Close was called never returned although the path recovered and the session closed"
+			case !g.cli.IsClosed() || !g.srv.IsClosed():
+				kind, detail = "session-not-closed", fmt.Sprintf("after Close and recovery of the path: client closed=%v, server closed=%v", g.cli.IsClosed(), g.srv.IsClosed())
+			}
+		}
+		g.closeAll()
+		vk.Wait()
+	})
+	if p != nil && !leftover && kind == "" {
+		kind, detail = "panic", fmt.Sprint(p)
+	}
+	return
 }
